@@ -73,7 +73,7 @@ const Q0: Op = Op::Send { kind: SendKind::Qos0, again: false, own_id: 0 };
 const Q1: Op = Op::Send { kind: SendKind::Qos1, again: false, own_id: 0 };
 const Q2: Op = Op::Send { kind: SendKind::Qos2, again: false, own_id: 0 };
 
-pub const SCENARIOS: usize = 11;
+pub const SCENARIOS: usize = 12;
 
 /// (name, limit, steps)
 pub fn scenario(k: u8, role: Role) -> (&'static str, u16, Vec<Op>) {
@@ -96,6 +96,7 @@ pub fn scenario(k: u8, role: Role) -> (&'static str, u16, Vec<Op>) {
             if server { vec![Op::Hold(true), Op::Inbound(2), Op::Inbound(1), Op::Inbound(2), Op::Inbound(0)] } else { vec![Op::Hold(true), Op::Inbound(6), Op::Inbound(7), Op::Inbound(0), Op::Inbound(3)] },
         ),
         9 => ("outbound streamed publish paused by write back-pressure", 3, vec![Op::Window(false), Op::StreamStart { qos: 0, declared: 200, bad: 0 }, Op::Chunk { stream: 0, len: 2 }, Op::Chunk { stream: 0, len: 2 }, Op::Chunk { stream: 0, len: 1 }]),
+        11 => ("server: the per-connection services are still being created (slow factory), a send already awaits its acknowledgement", 3, if server { vec![Q1] } else { vec![] }),
         10 => ("streamed inbound payload half received, read by a task that outlives the handler", 3, vec![Op::Inbound(0), Op::Inbound(4)]),
         _ => ("mixed: gated handler, half payload, outbound sends, stream", 2, vec![Op::Hold(true), Op::Inbound(0), Q1, Q2, Op::Hold(false), Op::Inbound(4), Q1, Op::Ack { n: 1, batch: false }]),
     }
@@ -323,6 +324,10 @@ async fn run_with(c: Case, limit: u16, steps: Vec<Op>, write_hw: usize) -> Resul
             // the publish handler proper (with take_payload) serves routed topics on client roles
             cfg.v3.router = true;
             cfg.v5.router = true;
+        }
+        if c.scenario == 11 {
+            cfg.v3.hold_factory = true;
+            cfg.v5.hold_factory = true;
         }
         if c.cause == Cause::KeepAlive {
             cfg.v3.connect.keep_alive = 10;
@@ -592,8 +597,16 @@ pub fn all_cases(thorough: bool) -> Vec<Case> {
     for role in Role::ALL {
         for sc in 0..SCENARIOS as u8 {
             let (_, _, steps) = scenario(sc, role);
+            if sc == 11 && !role.is_server() {
+                continue;
+            }
             for cut in 0..=steps.len() as u8 {
                 for cause in causes(role) {
+                    // scenario 11: the dispatcher does not exist yet when the cause arrives; causes that rely on a handler
+                    // being suspended at that moment do not apply
+                    if sc == 11 && matches!(cause, Cause::DupId | Cause::HandlerErrLate | Cause::BackpressureErr | Cause::PubRelUnknown) {
+                        continue;
+                    }
                     for hold_stop in [false, true] {
                         out.push(Case { role, scenario: sc, cut, byte: None, cause, hold_stop, stop_fail: false });
                         if !hold_stop && matches!(sc, 3 | 4 | 5 | 6 | 8 | 9) {
@@ -602,7 +615,7 @@ pub fn all_cases(thorough: bool) -> Vec<Case> {
                     }
                 }
                 // keep-alive expiry (real time) after the last step of the scenario, server roles
-                if role.is_server() && usize::from(cut) == steps.len() {
+                if role.is_server() && usize::from(cut) == steps.len() && sc != 11 {
                     out.push(Case { role, scenario: sc, cut, byte: None, cause: Cause::KeepAlive, hold_stop: false, stop_fail: false });
                     if thorough {
                         out.push(Case { role, scenario: sc, cut, byte: None, cause: Cause::KeepAlive, hold_stop: true, stop_fail: false });
